@@ -283,7 +283,7 @@ def run_case(case: dict) -> Outcome:
         return out
     ilog: list[str] = []
     authenticate = _compose(c, gate, ilog)
-    model = ref.NonceModel(c["skew"]) if c["cache"] else None
+    model = ref.NonceModel(c["skew"], 2 * c["skew"] + 1) if c["cache"] else None
     impl = _Impl()
     client = proxy_cm = proxy = None
     if level == "http":
